@@ -148,6 +148,22 @@ func (w *recWriter) Write(p []byte) (int, error) {
 	return len(p), nil
 }
 
+// Close is one more call on the wrapped writer (Logger.Fatal and shutdown paths close the writer):
+// under SyncWriter it must not overlap a Write.
+func (w *recWriter) Close() error {
+	w.inside++
+	if w.inside > 1 {
+		w.overlap = true
+	}
+	if w.yields {
+		vsched.Yield("closer")
+	}
+	w.inside--
+	return nil
+}
+
+var lastSync io.Writer
+
 func mkLoggers(ws []*recWriter, syncW bool, dest string) []*zerolog.Logger {
 	var l0 zerolog.Logger
 	var w io.Writer = ws[0]
@@ -158,7 +174,8 @@ func mkLoggers(ws []*recWriter, syncW bool, dest string) []*zerolog.Logger {
 		w = zerolog.MultiLevelWriter(ws[0], ws[1])
 	}
 	if syncW {
-		l0 = zerolog.New(zerolog.SyncWriter(w))
+		lastSync = zerolog.SyncWriter(w)
+		l0 = zerolog.New(lastSync)
 	} else {
 		l0 = zerolog.New(w)
 	}
@@ -190,6 +207,16 @@ func runLog(c *Case, ch vsched.Chooser) (string, *vsched.Sched) {
 					shapes[shapeOf(t, i)](ls, t, i)
 				}
 				done++
+			})
+		}
+		if c.Sync {
+			// a closer thread: Close goes through the same lock as Write
+			sw := lastSync
+			vsched.GoNamed("closer", func() {
+				if cl, ok := sw.(io.Closer); ok {
+					cl.Close()
+					cl.Close()
+				}
 			})
 		}
 		vsched.Block("join", func() bool { return done == c.T })
